@@ -364,7 +364,7 @@ fn stream_traffic(case: &StreamCase, mut c: RawConn, mut b: RawConn, data: Vec<u
     let b_skip = if case.mode == Mode::Send { 28 } else { b.received.len() };
     let piece = data.len() / chunks;
     let pieces: Vec<Vec<u8>> = data.chunks(piece.max(1)).map(|x| x.to_vec()).collect();
-    let (sender, receiver, recv_skip) = if case.b2c { (b, c, c_skip) } else { (c, b, b_skip) };
+    let (sender, receiver, recv_skip, send_skip) = if case.b2c { (b, c, c_skip, b_skip) } else { (c, b, b_skip, c_skip) };
     // trickle in the other direction through a clone of the receiver's socket
     let stop = std::sync::Arc::new(std::sync::atomic::AtomicBool::new(false));
     let trickle = if case.trickle {
@@ -419,7 +419,7 @@ fn stream_traffic(case: &StreamCase, mut c: RawConn, mut b: RawConn, data: Vec<u
         fails.push(("tcp-backend-eof-not-propagated".into(), format!("client read ended {end:?} after the backend closed")));
     }
     // the trickle bytes must have crossed too (prefix of what was written)
-    let back = &sender.received;
+    let back = &sender.received[send_skip.min(sender.received.len())..];
     if case.trickle && back.iter().any(|x| *x != b't') {
         fails.push(("tcp-bytes-differ-trickle".into(), format!("sender side received {:?}", hex(&back[..back.len().min(32)]))));
     }
